@@ -127,6 +127,8 @@ class FrameLedger:
             self.by_type[ftype] = self.by_type.get(ftype, 0) + 1
             self._frame(ftype, flags, sid, length, payload)
 
+    empty_data_frames = 0
+
     def _frame(self, ftype, flags, sid, length, payload) -> None:
         if length > self.max_frame_allowed:
             self.viol("frame-too-large", type=ftype, length=length, allowed=self.max_frame_allowed)
@@ -139,10 +141,12 @@ class FrameLedger:
             if sid in self.stream_window:
                 self.stream_window[sid] -= length
                 slack = self.init_window_allowed - self.init_window_acked
-                if self.stream_window[sid] + slack < 0:
+                if length and self.stream_window[sid] + slack < 0:  # (an empty DATA frame needs no window)
                     self.viol("stream-window-exceeded", stream=sid, window=self.stream_window[sid])
-            if self.conn_window < 0:
+            if length and self.conn_window < 0:
                 self.viol("connection-window-exceeded", window=self.conn_window)
+            if not length and not flags & 0x1:
+                self.empty_data_frames += 1
             self.data_bytes[sid] = self.data_bytes.get(sid, 0) + length
             if flags & 0x1 and st is not None:
                 if st["c_end"]:
@@ -392,6 +396,7 @@ class H2Server:
                 self._actions("end", req)
                 if ev.stream_id in self.reqs and not getattr(req, "dropped", False):
                     self._answer(req)
+                self._release_dep()
         elif isinstance(ev, h2.events.StreamReset):
             self.pending_out.pop(ev.stream_id, None)
             self.held = [(r, p) for r, p in self.held if r.stream_id != ev.stream_id]
@@ -409,6 +414,19 @@ class H2Server:
         except (h2.exceptions.ProtocolError, KeyError, ValueError):
             return
         self.ledger.server_sent_window_update(sid, inc)
+
+    def _release_dep(self) -> None:
+        pol = self.script.get("win", "auto")
+        if not pol.startswith("dep:") or not self.reqs:
+            return
+        total = int(pol.split(":")[1])
+        first = min(self.reqs)
+        owed = self.upload_credit_owed.get(first, 0)
+        if owed and sum(1 for k, r in self.reqs.items() if k != first and r.complete) >= total - 1:
+            self.upload_credit_owed[first] = 0
+            if first in self.conn.streams and not self.conn.streams[first].closed:
+                self._wu(first, owed)
+                self._flush()
 
     def _credit(self, sid: int, n: int) -> None:
         pol = self.script.get("win", "auto")
@@ -458,6 +476,17 @@ class H2Server:
             if self.ledger.conn_window <= 0 and not self.big_once_done:
                 self.big_once_done = True
                 self._wu(0, 2 ** 30)
+        elif pol.startswith("dep:"):
+            # a dependency between uploads: connection credit at once, but the first stream's own credit is withheld
+            # until the other uploads (dep:<how many requests in all>) have been received completely
+            total = int(pol.split(":")[1])
+            self._wu(0, n)
+            first = min(self.reqs) if self.reqs else sid
+            done_others = sum(1 for k, r in self.reqs.items() if k != first and r.complete)
+            if sid == first and done_others < total - 1:
+                self.upload_credit_owed[sid] = self.upload_credit_owed.get(sid, 0) + n
+            elif stream_open:
+                self._wu(sid, n)
         elif pol == "none":
             pass
 
